@@ -12,6 +12,7 @@ func init() {
 func runC08(a *A) {
 	a.Rule("ordtab/contains", 1, a.ruleContains)
 	a.Rule("shape/slots-tile", 4, func() { a.tumblingSlotShapes("SlidingWindow", "size", "slide") })
+	a.Rule("shape/epoch-aligned", 1, func() { a.ruleEpochAligned() })
 	a.Rule("shape/buffer-arrival-order", 4, func() { a.ruleBufferArrivalOrder(a.Named("window", "SlidingWindow")) })
 	a.Rule("shape/row-eviction-ignores-lateness", 4, func() { a.ruleRowEvictionIgnoresLateness(a.Named("window", "SlidingWindow")) })
 	a.Rule("locks/clock-read-under-lock", 2, func() { a.ruleClockReadUnderLock(a.Named("window", "SlidingWindow")) })
